@@ -2081,6 +2081,7 @@ class ConvertMetaToMeta(controldir.Converter):
             else:
                 # TODO: conversions of Branch and Tree should be done by
                 # InterXFormat lookups
+                converted = False
                 if (
                     isinstance(tree, workingtree_3.WorkingTree3)
                     and not isinstance(tree, workingtree_4.DirStateWorkingTree)
@@ -2090,6 +2091,7 @@ class ConvertMetaToMeta(controldir.Converter):
                     )
                 ):
                     workingtree_4.Converter3to4().convert(tree)
+                    converted = True
                 if (
                     isinstance(tree, workingtree_4.DirStateWorkingTree)
                     and not isinstance(tree, workingtree_4.WorkingTree5)
@@ -2099,6 +2101,7 @@ class ConvertMetaToMeta(controldir.Converter):
                     )
                 ):
                     workingtree_4.Converter4to5().convert(tree)
+                    converted = True
                 if (
                     isinstance(tree, workingtree_4.DirStateWorkingTree)
                     and not isinstance(tree, workingtree_4.WorkingTree6)
@@ -2108,6 +2111,17 @@ class ConvertMetaToMeta(controldir.Converter):
                     )
                 ):
                     workingtree_4.Converter4or5to6().convert(tree)
+                    converted = True
+                if not converted and not isinstance(
+                    tree._format, self.target_format.workingtree_format.__class__
+                ):
+                    # e.g. lowering a dirstate format: nothing above applies and
+                    # the caller would ask for this conversion again and again
+                    raise errors.BadConversionTarget(
+                        "No converter",
+                        self.target_format.workingtree_format,
+                        tree._format,
+                    )
         return to_convert
 
 
